@@ -76,7 +76,7 @@ PROPS["C16"] = {
     "undecided": ["codec round trip decode(encode(t)) == t", "separator lemma for str.replace chains (bounded only)"],
 }
 PROPS["C15"] = {
-    "sidecars": ["c15_scopes.py"],
+    "sidecars": ["c15_scopes.py", "c15_holding.py"],
     "level": "other",
     "claim": "Proof level for two kernels: PyFunction.get_param_names returns exactly the parameters of every kind (positional-only, positional-or-keyword, "
              "*args, keyword-only, **kwargs) in definition order for every ast.arguments record (comprehension loops with invariants), and "
@@ -179,7 +179,7 @@ PROPS["C19"] = {
     "undecided": ["matcher soundness and completeness for all patterns", "meaning preservation of arbitrary goals"],
 }
 PROPS["C20"] = {
-    "sidecars": ["c20_commenter.py", "c14_worder.py"],
+    "sidecars": ["c20_commenter.py", "c14_worder.py", "c15_holding.py"],
     "level": "exploration",
     "claim": "Mostly bounded: completion at every offset and every line truncation of a fixed module (no internal error, proposals extend the prefix), completeness "
              "probes against hand-listed visible names, go-to-definition on every identifier of the C02 catalogue against the reference binder, scenarios.  "
